@@ -29,7 +29,7 @@ func init() {
 			"the window between the status load and the CAS inside Engine.Shutdown contains no park point; a second Shutdown is only judged when it starts after the first one has begun",
 			"signal handling (Spin) is not exercised",
 		},
-		RequiredProbes: []string{"conn-idle-at-shutdown", "conn-handler-running-at-shutdown", "conn-mid-request-at-shutdown", "hook-slow", "hook-beyond-deadline", "second-shutdown", "shutdown-before-run", "dial-after-shutdown", "wait-expired", "returned-early", "close-hdr-checked", "slow-accept-callback", "request-received-before-shutdown", "pipelined-request-received-before-shutdown", "listen-error", "slow-reader", "write-backpressure"},
+		RequiredProbes: []string{"conn-idle-at-shutdown", "conn-handler-running-at-shutdown", "conn-mid-request-at-shutdown", "hook-slow", "hook-beyond-deadline", "second-shutdown", "shutdown-before-run", "dial-after-shutdown", "wait-expired", "returned-early", "close-hdr-checked", "slow-accept-callback", "request-received-before-shutdown", "pipelined-request-received-before-shutdown", "listen-error", "slow-reader", "write-backpressure", "handler-sets-connection"},
 	}
 }
 
@@ -109,6 +109,11 @@ func RunC18(ep *core.Episode) {
 		hmu.Unlock()
 		ctx.SetStatusCode(200)
 		ctx.Response.SetBodyString("done " + name)
+		if tp.Choose("hconn", 6) == 0 {
+			// a handler that sets the Connection header itself (what a reverse proxy copying upstream headers does)
+			ctx.Response.Header.Set("Connection", "keep-alive")
+			ep.Probe("handler-sets-connection")
+		}
 	})
 	// hooks
 	nhooks := tp.Choose("nhooks", 4)
@@ -509,7 +514,11 @@ func RunC18(ep *core.Episode) {
 			}
 			ep.Probe("close-hdr-checked")
 			r := c.cl.Resps[i]
-			if v, _ := r.Get("Connection"); v != "close" {
+			if vs := r.GetAll("Connection"); len(vs) == 0 || vs[len(vs)-1] != "close" || len(vs) > 2 {
+				ep.Fail("C18.close-hdr", "connection %s: response %d was produced after shutdown began but its Connection fields are %q", c.name, i, vs)
+				return
+			}
+			if v, _ := r.Get("Connection"); false && v != "close" {
 				ep.Fail("C18.close-hdr", "connection %s: response %d was produced after shutdown began but carries Connection %q", c.name, i, v)
 				return
 			}
